@@ -393,7 +393,8 @@ var c12Snippets = []c12snippet{
 		g.w("\t%s := Pair{%d, \"b\", 2.5}", b, g.small())
 		g.w("\t%s := []Point{{1, 2, \"a\"}, {X: 3}}", c)
 		g.w("\t%s := &Pair{A: 1, B: \"x\"}", d)
-		g.w("\tprintln(%s.Y, %s.B, len(%s), %s.A, Rect{W: 1.5, H: 2}.Area())", a, b, c, d)
+		g.w("\tse%s := Pair{1, \"b\", (2 * unit.W)}", a)
+		g.w("\tprintln(%s.Y, %s.B, len(%s), %s.A, Rect{W: 1.5, H: 2}.Area(), se%s.C)", a, b, c, d, a)
 	}},
 	{"array-lit", func(g *c12gen) {
 		a, b, c, d := g.id("la"), g.id("lb"), g.id("lc"), g.id("ld")
@@ -401,7 +402,8 @@ var c12Snippets = []c12snippet{
 		g.w("\t%s := [4]int{0: 1, 2: 5}", b)
 		g.w("\t%s := [...]string{\"a\", \"b\"}", c)
 		g.w("\t%s := [][]int{{1}, {2, 3}}", d)
-		g.w("\tprintln(%s[1], %s[2], len(%s), len(%s), []float64{1, 2.5}[1], [2]bool{true, false}[0])", a, b, c, d)
+		g.w("\tle%s := []int{(2 - origin.X), -origin.Y}", a)
+		g.w("\tprintln(%s[1], %s[2], len(%s), len(%s), []float64{1, 2.5}[1], [2]bool{true, false}[0], le%s[0])", a, b, c, d, a)
 	}},
 	{"map-lit", func(g *c12gen) {
 		a, b, c := g.id("ma"), g.id("mb"), g.id("mc")
